@@ -419,6 +419,14 @@ func rtStubs(m map[string]stubFn) {
 		d := e.diskFor(a[0])
 		return e.readBlock(d, a[1].(*Term))
 	}
+	// AssumeZero: the pre-state assumption "block n is all zero" applied by substitution (cheaper for
+	// the solver than an array equation); n is a free block that nothing has read yet
+	m[D+"AssumeZero"] = func(e *Engine, fn *ssa.Function, a []Value) Value {
+		d := e.diskFor(a[0])
+		n := e.uniqueValue(a[1].(*Term))
+		d.cur = Store(d.cur, n, ConstArr(8, Const(8, 0)))
+		return nil
+	}
 	// Init reads the initial logical block
 	m[D+"Init"] = func(e *Engine, fn *ssa.Function, a []Value) Value {
 		d := e.diskFor(a[0])
